@@ -515,7 +515,10 @@ package server
 //@   loop 3 entry [ids-from-start] nextid == "" && !idsdone
 //@   loop 3 invariant lock == 0 && !pending && len(keys) > 0
 //@   loop 7 invariant lock == 0 && !pending
-//@   loop 10 invariant lock == 2 && !pending
+// -- every follower that streams the old file is disconnected before the files are swapped (it would otherwise keep
+//    reading a file that is no longer the log; C06: a follower must resync after the leader's AOFSHRINK)
+//@   loop 10 invariant lock == 2 && !pending && forall(j, 0, idx10, connClosed[mkeys10[j]])
+//@   at-call Server.flushAOF#1 [followers-disconnected] allint(c, indom(s.aofconnM, c) ==> connClosed[c])
 //@   loop 11 invariant lock == 2 && aofbuf == encLogOnto("", s.shrinklog, idx11)
 //@   loop 12 invariant lock == 2 && aofbuf == encArgsOnto(encHead(encLogOnto("", s.shrinklog, idx11), values), values, idx12)
 // -- the new file is complete before the swap starts: everything logged during the rewrite, in order, synced, and all of
